@@ -7,8 +7,8 @@ from . import geom
 
 SPEC = dict(
     technique='Lean 4 proof (normalisation returns members, idempotent, keeps directions; angle wrapping) + float monitor of noise bands',
-    lean_modules=['SmVerif.Props.C14', 'SmVerif.Props.VecPreds'],
-    groups=['Transforms3d', 'Quaternions', 'Vectors'],
+    lean_modules=['SmVerif.Props.C14', 'SmVerif.Props.VecPreds', 'SmVerif.Props.Norm2'],
+    groups=['Transforms3d', 'Transforms2d', 'Quaternions', 'Vectors'],
     expected_untranslatable=('trinterp_T', 'trinterp_T_nostart'),
     partial=['idempotence and fixed points are proved in exact arithmetic; the 1e-12 float statement is explored'],
     assumptions=['tolerance 1e-12 on generated inputs only'],
@@ -135,6 +135,27 @@ def _impl(tier, seed, search):
             ok2, us2 = L.noraise('unittwist:idempotent', lambda: b.unittwist(us), dict(S=S), 'unittwist twice')
             if ok2 and us2 is not None and (np.linalg.norm(w) > 100 * 2.2e-16 or np.linalg.norm(w) == 0): L.close('unittwist:idempotent', us2, us, TOL, max(1.0, float(np.max(np.abs(us)))), dict(S=S))
             L.check('unittwist:isunittwist', bool(b.isunittwist(us, tol=100)) or not (np.linalg.norm(w) > 100 * 2.2e-16 or np.linalg.norm(w) == 0), dict(S=S), 'unittwist result is not a unit twist')
+        # planar twists with a rotational part between the zero thresholds (10 and 100 eps): unittwist2 and unittwist2_norm agree
+        for w2b in (float(g.choice([-1, 1])) * 10.0 ** g.uniform(-14.6, -13.7), float(g.choice([-1, 1])) * 10.0 ** g.uniform(-13, -8)):
+            S2b = np.r_[vv[:2] / max(1e-300, np.linalg.norm(vv[:2])) * 10.0 ** g.uniform(-1, 1), w2b]
+            ok, r = L.noraise('unittwist2(band)', lambda: (b.unittwist2(S2b), b.unittwist2_norm(S2b)), dict(S=S2b), 'unittwist2 / unittwist2_norm')
+            if ok and r[0] is not None and r[1][0] is not None:
+                L.close('unittwist2=unittwist2_norm', r[0], r[1][0], TOL, max(1.0, float(np.max(np.abs(r[1][0])))), dict(S=S2b), what='unittwist2 and unittwist2_norm normalise the same planar twist differently', sig='unittwist2:band')
+                L.close('unittwist2:unit-rotation(band)', abs(float(r[0][2])), 1.0, TOL, 1.0, dict(S=S2b), sig='unittwist2:band')
+        # a 4x4 matrix with noise in every entry (bottom row too): the normalised matrix is a rigid motion with exact last row
+        Tn4 = inputs.se3(g, 1) + g.normal(size=(4, 4)) * 10.0 ** g.uniform(-11, -3)
+        ok, r = L.noraise('trnorm(T, full noise)', lambda: b.trnorm(Tn4), dict(T=Tn4), 'trnorm of a 4x4 matrix with noise in all entries')
+        if ok:
+            r = np.asarray(r, float)
+            L.check('trnorm(T):last-row', np.array_equal(r[3, :], [0.0, 0.0, 0.0, 1.0]), dict(T=Tn4), 'trnorm(T) does not restore the last row [0 0 0 1]', sig='trnorm:last-row', observed=r[3, :].tolist())
+            L.close('trnorm(T):rotation', r[:3, :3] @ r[:3, :3].T, np.eye(3), TOL, 1.0, dict(T=Tn4), sig='trnorm:last-row'); L.close('trnorm(T):translation', r[:3, 3], Tn4[:3, 3], 1e-15, max(1.0, float(np.max(np.abs(Tn4[:3, 3])))), dict(T=Tn4), sig='trnorm:last-row')
+        ok, r = L.noraise('SE3.norm(full noise)', lambda: SE3(Tn4, check=False).norm().A, dict(T=Tn4), 'SE3(T, check=False).norm()', sig='SE3.norm:raises')
+        if ok: L.check('SE3.norm:last-row', np.array_equal(np.asarray(r, float)[3, :], [0.0, 0.0, 0.0, 1.0]), dict(T=Tn4), 'SE3.norm() does not restore the last row', sig='trnorm:last-row')
+        # the normalising constructor normalises whatever check says (check is about validation, norm about scaling)
+        for fn_, mk_ in (('array', lambda: UnitQuaternion(q, check=False)), ('list', lambda: UnitQuaternion(list(q), check=False)), ('list of arrays', lambda: UnitQuaternion([q, 2 * q], check=False))):
+            ok, r = L.noraise(f'UnitQuaternion({fn_}, check=False)', lambda: [np.asarray(x_, float) for x_ in mk_().data], dict(q=q, form=fn_), f'UnitQuaternion({fn_}, check=False)', sig='UnitQuaternion(check=False):raises')
+            if ok:
+                for x_ in r: L.close('UnitQuaternion(check=False):unit', x_ * mag, q, TOL, mag, dict(q=q, form=fn_), what='UnitQuaternion(x, check=False) does not normalise x', sig='UnitQuaternion(check=False)')
         # the class property on twists of unit Euclidean length (|S| = 1 is not "unit twist": the rotational part must be unit)
         if np.linalg.norm(w) > 1e-6 and np.linalg.norm(vv) > 0:
             from spatialmath import Twist3 as Tw3_
